@@ -64,10 +64,11 @@ def parse_object(path):
         if not m:
             continue
         val, flags, sec, size, name = int(m.group(1), 16), m.group(2), m.group(3), int(m.group(4), 16), m.group(5).strip()
+        name = re.sub(r"^\.(hidden|protected|internal)\s+", "", name)
         if "F" in flags:
             functions.add(name)
         if "O" in flags or (is_mut_section(sec) and "d" not in flags and name and not name.startswith(".")):
-            syms.append((sec, val, size, name, flags[0] in "gu!"))
+            syms.append((sec, val, size, name, flags[0] in "gu!" or flags[1] == "w"))
     globs = {}
     extern_visible = {}   # name -> key, for mutable objects with external linkage (referenced from other translation units)
     for sec, val, size, name, ext in syms:
@@ -88,27 +89,47 @@ def parse_object(path):
     cur = None
     last_insn = ""
     addr_taken = set()
+    pending = []   # PC-relative relocations against a mutable section, waiting for the address of the next instruction
+    unresolved = []
+
+    def resolve_pending(next_addr):
+        for (fn, raddr, rtype, base, addend) in pending:
+            # S + A - P with P = relocation address; the CPU adds the address of the NEXT instruction, so the referenced
+            # byte is at  addend + (next_addr - raddr)  (this is addend + 4 only when no immediate follows the displacement)
+            off = addend + (next_addr - raddr) if next_addr is not None else addend + 4
+            n = sym_at(base, off)
+            if n is None:
+                unresolved.append(f"{obj}:{fn}: {rtype} {base}{addend:+#x} -> offset {off:#x} hits no symbol")
+                n = base
+            funcs[fn]["refs"].add(f"{obj}:{n}")
+        pending.clear()
+
     for line in d.splitlines():
         m = re.match(r"^[0-9a-f]+ <([^>]+)>:$", line)
         if m:
+            resolve_pending(None)
             cur = m.group(1)
             funcs.setdefault(cur, dict(calls=set(), refs=set(), indirect=False, extrefs=set()))
             continue
         if cur is None:
             continue
-        m = re.match(r"^\s+[0-9a-f]+:\s+(R_X86_64_\w+)\s+(\S+)", line)
+        m = re.match(r"^\s+([0-9a-f]+):\s+(R_X86_64_\w+)\s+(\S+)", line)
         if m:
-            rtype, target = m.group(1), m.group(2)
+            raddr, rtype, target = int(m.group(1), 16), m.group(2), m.group(3)
             tm = re.match(r"^(.*?)([+-]0x[0-9a-f]+)?$", target)
             base, add = tm.group(1), tm.group(2)
             addend = int(add, 16) if add else 0
             mnem = last_insn.split()[0] if last_insn.split() else ""
             is_call = mnem.startswith("call") or mnem.startswith("j")
             if is_mut_section(base):
-                # PC-relative relocations carry the distance to the end of the instruction in the addend
-                off = addend + 4 if "PC32" in rtype or "PLT32" in rtype or "GOTPCREL" in rtype else addend
-                n = sym_at(base, off) or sym_at(base, addend) or base
-                funcs[cur]["refs"].add(f"{obj}:{n}")
+                if "PC32" in rtype or "PLT32" in rtype or "GOTPCREL" in rtype:
+                    pending.append((cur, raddr, rtype, base, addend))
+                else:
+                    n = sym_at(base, addend)
+                    if n is None:
+                        unresolved.append(f"{obj}:{cur}: {rtype} {base}{addend:+#x} hits no symbol")
+                        n = base
+                    funcs[cur]["refs"].add(f"{obj}:{n}")
             elif f"{obj}:{base}" in globs:
                 funcs[cur]["refs"].add(f"{obj}:{base}")
             elif base in functions or rtype in ("R_X86_64_PLT32",) or (is_call and not base.startswith(".")):
@@ -123,12 +144,20 @@ def parse_object(path):
                 addr_taken.add(base)
                 funcs[cur]["extrefs"].add(base)
             continue
-        m = re.match(r"^\s+[0-9a-f]+:\s+(.*)$", line)
+        m = re.match(r"^\s+([0-9a-f]+):\s+(.*)$", line)
         if m:
-            last_insn = m.group(1).strip()
+            resolve_pending(int(m.group(1), 16))
+            last_insn = m.group(2).strip()
             parts = last_insn.split()
             if parts and (parts[0].startswith("call") or parts[0] == "jmp") and len(parts) > 1 and parts[1].startswith("*"):
                 funcs[cur]["indirect"] = True
+            # direct call / jump to a function of the SAME translation unit: resolved by the assembler, no relocation
+            dm = re.match(r"^(call\w*|j\w+)\s+[0-9a-f]+ <([^>+]+)(\+0x[0-9a-f]+)?>", last_insn)
+            if dm and dm.group(2) != cur:
+                funcs[cur]["calls"].add(dm.group(2))
+    resolve_pending(None)
+    if unresolved:
+        raise RuntimeError("globals extraction: unresolved references to mutable sections: " + "; ".join(unresolved[:5]))
     # function addresses stored in data sections (tables of function pointers)
     r = subprocess.run(["objdump", "-r", path], capture_output=True, text=True).stdout
     sec = None
@@ -219,7 +248,7 @@ def gen_globals(libdir):
     out.append("def addrTaken : List Nat := " + lean_list(sorted(fid[n] for n in addr_taken if n in fid)))
     out.append("/-- function ↦ mutable globals it references -/")
     out.append("def refs : List (Nat × List Nat) := " + lean_list([n for n in names if funcs[n]["refs"]],
-                                                                lambda n: f"({fid[n]}, {lean_list(sorted(gid[g] for g in funcs[n]['refs'] if g in gid))})"))
+                                                                lambda n: f"({fid[n]}, {lean_list(sorted(gid[g] for g in funcs[n]['refs']))})"))
     out.append("/-- exported entry points taking a shared `const MODULE*` / `const *_PRECOMP*` (parsed from the public headers) -/")
     out.append("def apiRoots : List Nat := " + lean_list([fid[r] for r in roots if r in fid]))
     out.append("def apiRootNames : List String := " + lean_list([r for r in roots if r in fid], lean_str))
